@@ -390,7 +390,8 @@ func (s *Sched) Step(name string, stops map[string]bool, timeout time.Duration) 
 	if st.Finished {
 		return st, fmt.Errorf("step: %s already finished", name)
 	}
-	for {
+	deadline := time.Now().Add(timeout)
+	for n := 0; ; n++ {
 		if err := s.Release(name); err != nil {
 			return st, err
 		}
@@ -400,6 +401,9 @@ func (s *Sched) Step(name string, stops map[string]bool, timeout time.Duration) 
 		}
 		if st.Finished || stops == nil || stops[st.Label] {
 			return st, nil
+		}
+		if n > 20000 || time.Now().After(deadline) {
+			return st, fmt.Errorf("step: %s does not reach any of its stop gates (now at %s)", name, st.Label)
 		}
 	}
 }
@@ -412,6 +416,7 @@ func (s *Sched) waitNextStop(name string, timeout time.Duration) (State, error) 
 // RunToStop runs a process that is possibly not yet parked until a stop label or finish,
 // WITHOUT an initial release when it is not parked (used right after starting a goroutine).
 func (s *Sched) RunToStop(name string, stops map[string]bool, timeout time.Duration) (State, error) {
+	deadline := time.Now().Add(timeout)
 	for {
 		st, err := s.WaitStop(name, timeout)
 		if err != nil {
@@ -419,6 +424,9 @@ func (s *Sched) RunToStop(name string, stops map[string]bool, timeout time.Durat
 		}
 		if st.Finished || stops == nil || stops[st.Label] {
 			return st, nil
+		}
+		if time.Now().After(deadline) {
+			return st, fmt.Errorf("run: %s does not reach any of its stop gates (now at %s)", name, st.Label)
 		}
 		if err := s.Release(name); err != nil {
 			return st, err
